@@ -33,6 +33,7 @@ import (
 	plugin "github.com/fatedier/frp/pkg/plugin/server"
 	"github.com/fatedier/frp/pkg/util/limit"
 	netpkg "github.com/fatedier/frp/pkg/util/net"
+	"github.com/fatedier/frp/pkg/util/verifhook"
 	"github.com/fatedier/frp/pkg/util/xlog"
 	"github.com/fatedier/frp/server/controller"
 	"github.com/fatedier/frp/server/metrics"
@@ -334,10 +335,12 @@ func (pm *Manager) Add(name string, pxy Proxy) error {
 	pm.mu.Lock()
 	defer pm.mu.Unlock()
 	if _, ok := pm.pxys[name]; ok {
+		verifhook.At("pm.add", "name", name, "ok", false)
 		return fmt.Errorf("proxy name [%s] is already in use", name)
 	}
 
 	pm.pxys[name] = pxy
+	verifhook.At("pm.add", "name", name, "ok", true, "pxy", verifhook.ID(pxy))
 	return nil
 }
 
@@ -352,6 +355,7 @@ func (pm *Manager) Del(name string) {
 	pm.mu.Lock()
 	defer pm.mu.Unlock()
 	delete(pm.pxys, name)
+	verifhook.At("pm.del", "name", name)
 }
 
 func (pm *Manager) GetByName(name string) (pxy Proxy, ok bool) {
